@@ -227,3 +227,24 @@ PROPS['C09'] = dict(
     trusted_base=EG_TRUST,
     assumptions=COMMON_ASSUME,
 )
+
+PROPS['C03'] = dict(
+    level='translation_validation',
+    module='SlotVerif.Props.C03',
+    suites=[dict(name='rw', variant='default', shrink=False, quick=dict(count=1500, timeout=900), thorough=dict(count=30000, timeout=3000)),
+            dict(name='rw', variant='checks', shrink=False, quick=dict(count=400, timeout=900), thorough=dict(count=8000, timeout=3000))],
+    rule='corr.eval: 1-2 start terms over the arithmetic fragment of the main language (add, mul, numbers, symbols, var, sum $x, '
+         'let $x, h, k; depth 2-3; slots occur only through (var $x), which is what makes b[(var $x) := t] meaningful), a random '
+         'subset of 2-8 rules of the 24-rule pool proved valid in Lean, 1-4 apply_rewrites iterations within a node budget, with '
+         'SynExprSubst (2/3) or ExtractionSubst (1/3), side conditions either as closures or through the crate\'s slot_free_in/and '
+         'helpers (1/2 each). Afterwards, per live class: every e-node with its children replaced by representative terms (built by the '
+         'harness bottom-up from enodes(), binders renamed apart), plus the originally inserted term, is evaluated by the Lean model '
+         'under 24 pseudo-random environments (values in F7, non-injective ones included) and again with the slots the class does '
+         'not list re-randomised: all values per class must agree. The rule texts used by the harness are compared with the Lean '
+         'pool on every run. non-trivial = a rule with a binder was in the subset and something fired; distinct = by hash of the case line',
+    trusted_base=EG_TRUST + ['the harness-side construction of representative terms from enodes() (capture avoidance by refresh_private)',
+                             'scoping facts assumed by the validity theorems (Rule.implicit): a slot bound in the left pattern does not occur in a variable matched outside its scope; a slot bound only on the right occurs in no variable',
+                             'groups whose terms nest more than 3 summations or exceed 120 nodes are skipped (evaluation cost 7^depth) and counted'],
+    assumptions=COMMON_ASSUME + ['lam/app and multi-slot leaves are not part of the C03 fragment (no model for them / substitution form not meaningful)'],
+    pending_theorems=['cong_eval : Cong E t u -> (E valid in the model) -> eval t = eval u (links rule validity to the spec)'],
+)
